@@ -123,10 +123,7 @@ impl Method for PhoneticMethod {
     fn candidate_committed(&mut self, index: usize, config: &Config) {
         // Check if user has selected a different suggestion
         if self.prev_selection != index && config.get_phonetic_suggestion() {
-            let suggestion =
-                SplittedString::split(self.suggestion.suggestions[index].to_string(), true)
-                    .word()
-                    .to_string();
+            let suggestion = self.suggestion.get_bare_suggestion(index).to_string();
             self.selections.insert(
                 SplittedString::split(&self.buffer, false)
                     .word()
